@@ -459,6 +459,15 @@ var c04Programs = []string{
 // that the evaluator's input wires straddle it (in0 < 65536 < in0 + in1)
 var c04PageProgram = "package main\nfunc main(g [%d]byte, e uint32) uint32 {\n\treturn e ^ uint32(g[0]) ^ uint32(g[%d])\n}\n"
 
+var c04SlicePrograms = []struct{ src, gIn string }{
+	{"package main\nfunc main(g [9]uint64, e uint8) uint64 {\n\tvar tab [8]uint64\n\tfor i := 0; i < len(tab); i++ {\n\t\ttab[i] = uint64(i + 1)\n\t}\n\ts := tab[0:8]\n\th := g[0:1]\n\treturn s[e] ^ h[e]\n}\n",
+		"0x" + strings.Repeat("ff", 72)},
+	{"package main\nfunc main(a [8]byte, i uint8) (byte, byte) {\n\tl := a[2:8]\n\ts := a[0:1]\n\treturn l[i & 3], s[i & 1]\n}\n",
+		"0xfffefdfcfbfaf9f8"},
+	{"package main\nfunc main(a [8]byte, i uint8) (bool, bool, byte) {\n\tlong := a[2:7] == a[3:8]\n\tshort := a[0:1] == a[1:2]\n\treturn long, short, a[7] + i\n}\n",
+		"0xffffffffffffffff"},
+}
+
 func runStreamSession(c *Ctx, idx int) error {
 	r := c.rng.Fork()
 	src := c04Programs[idx%len(c04Programs)]
@@ -470,6 +479,14 @@ func runStreamSession(c *Ctx, idx int) error {
 		src = fmt.Sprintf(c04PageProgram, nb, nb-1)
 		gIn = "0x" + strings.Repeat(fmt.Sprintf("%02x", r.Intn(256)), nb)
 		eIn = fmt.Sprintf("0x%08x", uint32(r.U64()))
+	}
+	if idx%5 == 3 {
+		// programs whose streamed instructions differ only in the LENGTH of a slice operand
+		// (the per-instruction circuit cache of Program.Stream must not confuse them), with a
+		// garbler input that has many 1 bits
+		x := c04SlicePrograms[(idx/5)%len(c04SlicePrograms)]
+		src, gIn, eIn = x.src, x.gIn, fmt.Sprint(r.Intn(4))
+		c.Hist("mode:stream-session:slices-of-different-lengths")
 	}
 	ga, ea, g2e, _ := newDuplexPair(r, 0)
 	gConn := p2p.NewConn(ga)
